@@ -36,10 +36,14 @@ def run(case):
     def nested_proxy():
         import collections
         return {'inner': collections.ChainMap({'k': 1}), 'tags': frozenset(['a'])}
+    def mixed_set():
+        # members that cannot be ordered against each other
+        return {'tags': set([1, 'a', None]), 'frozen': frozenset([(1, 2), 'x'])}
     texts = {'jobj': '{"a": 1}', 'jarr': '[1, 2, {"n": "x"}]', 'mixed1': "[INFO] reloaded {'debug': True}", 'mixed2': '{x]',
              'html': '<!doctype html><html><body>x</body></html>', 'plain': 'just text', 'empty': '', 'bytesarr': b'[1,2]'}
     routes = [('/nodoc', nodoc, render_basic), ('/onedoc', onedoc, render_basic), ('/multidoc', multidoc, render_basic),
-              ('/seq', seq, render_basic), ('/proxy', proxy, render_basic), ('/nested', nested_proxy, render_basic)]
+              ('/seq', seq, render_basic), ('/proxy', proxy, render_basic), ('/nested', nested_proxy, render_basic),
+              ('/mixedset', mixed_set, render_basic)]
     for k, v in texts.items():
         routes.append(('/t/' + k, (lambda v=v: v), render_basic))
     app = Application(routes)
@@ -58,6 +62,15 @@ def run(case):
             got = '<not JSON>'
         if got != want:
             problems.append('%s: a string-keyed mapping that is not a dict serialised as %r, expected %r' % (path, got, want))
+    r = cl.get('/mixedset')
+    try:
+        got = json.loads(r.get_data(as_text=True)) if r.status_code == 200 else '<status %s>' % r.status_code
+        ok = sorted(map(repr, got['tags'])) == sorted(map(repr, [1, 'a', None])) and \
+            sorted(map(repr, got['frozen'])) == sorted(map(repr, [[1, 2], 'x']))
+    except Exception:
+        got, ok = '<status %s, not the JSON of the value>' % r.status_code, False
+    if not ok:
+        problems.append('/mixedset: sets of mutually unorderable members serialised as %r' % (got,))
     accepts = [(None, 'application/json'), ('application/json', 'application/json'), ('text/html', 'text/html'),
                ('application/json, text/html;q=0.1', 'application/json'), ('text/html, application/json;q=0.1', 'text/html'),
                ('application/json, text/plain, */*;q=0.01', 'application/json'), ('text/html;q=0.2, application/json;q=0.9', 'application/json')]
